@@ -82,6 +82,7 @@ type FuncContract struct {
 	Params   []string
 	Requires []Clause
 	Ensures  []Clause
+	Lemmas   []Clause // "lemma [label] E": a closed formula proved from the axioms, spec functions and global invariants alone (entry state, before the preconditions); never assumed anywhere
 	Panics   []Clause // "panics E": may panic only when E
 	Modifies []Expr
 	ModSrc   []string
@@ -202,7 +203,7 @@ func ParseContractFile(path, pkgPath string) (*ContractFile, error) {
 }
 
 var keywords = []string{"import", "abstract", "spec", "axiom", "func", "extern", "interface", "global-invariant",
-	"requires", "ensures", "modifies", "pure", "inline", "trusted", "nopanic", "logged", "fresh", "loop", "invariant", "decreases", "assert", "assume", "props", "panics", "stmt", "calls", "maypanic", "owns", "refines"}
+	"requires", "ensures", "modifies", "pure", "inline", "trusted", "nopanic", "logged", "fresh", "loop", "invariant", "decreases", "assert", "assume", "props", "panics", "stmt", "calls", "maypanic", "owns", "refines", "lemma"}
 
 func splitKeyword(t string) (string, string) {
 	for _, k := range keywords {
@@ -355,12 +356,14 @@ func (cf *ContractFile) addItem(kw, text string, line int, cur **FuncContract, c
 		}
 		fc := *cur
 		switch kw {
-		case "requires", "ensures", "panics":
+		case "requires", "ensures", "panics", "lemma":
 			c, err := parseClause(text)
 			if err != nil {
 				return err
 			}
-			if kw == "requires" {
+			if kw == "lemma" {
+				fc.Lemmas = append(fc.Lemmas, c)
+			} else if kw == "requires" {
 				fc.Requires = append(fc.Requires, c)
 			} else if kw == "ensures" {
 				fc.Ensures = append(fc.Ensures, c)
